@@ -82,10 +82,13 @@ fn splitter(full: &str) -> HashMap<String, Option<String>> {
 pub fn run(ctx: &mut Ctx) {
     let tier = ctx.tier;
     // (a) text split/join
-    let na = if ctx.slow_tool { 12 } else { tier.pick(20_000u64, 1_000_000u64) };
+    let na = if ctx.slow_tool { 12 } else { tier.pick(100_000u64, 8_000_000u64) };
     for idx in 0..na {
         if !ctx.take("text", idx) {
             continue;
+        }
+        if ctx.stop("text") {
+            break;
         }
         let mut r = ctx.rng("text", idx);
         let target = match idx % 8 {
@@ -126,10 +129,13 @@ pub fn run(ctx: &mut Ctx) {
         }
     }
     // (b) attribute maps
-    let nb = if ctx.slow_tool { 12 } else { tier.pick(8_000u64, 400_000u64) };
+    let nb = if ctx.slow_tool { 12 } else { tier.pick(50_000u64, 4_000_000u64) };
     for idx in 0..nb {
         if !ctx.take("map", idx) {
             continue;
+        }
+        if ctx.stop("map") {
+            break;
         }
         let mut r = ctx.rng("map", idx);
         let n = r.usize(0, 8);
@@ -200,10 +206,13 @@ pub fn run(ctx: &mut Ctx) {
         }
     }
     // (c) long attributes
-    let nc = if ctx.slow_tool { 12 } else { tier.pick(10_000u64, 500_000u64) };
+    let nc = if ctx.slow_tool { 12 } else { tier.pick(80_000u64, 6_000_000u64) };
     for idx in 0..nc {
         if !ctx.take("long", idx) {
             continue;
+        }
+        if ctx.stop("long") {
+            break;
         }
         let mut r = ctx.rng("long", idx);
         let parts = r.usize(0, 8);
